@@ -20,3 +20,4 @@ PROP = {'engine': 'stack',
                'model; limit cases enumerated.',
  'level_note': 'calls are sequential at API granularity; the Logs/Telemetry subscription routes are not part of the property',
  'technique': 'property-based testing (rapid), stateful model-based: reference registration/lifecycle model as oracle and generator guide'}
+PROP['rule'] += ' Round-4 addition (lateExit, a third of the cases): after the closing invocation an INVOKE-subscribed external extension that is parked on its next reports an exit error on another connection, a second invocation begins, and the extension then tries next, init/error, exit/error, next: 403 InvalidExtensionState, 403, 202, 403 - an exit error is final (what the parked call itself is answered is not judged).'
